@@ -346,6 +346,10 @@ def build_request(ex, meta):
         r["trait"] = o["trait"]
     if "derive" in o:
         r["derive_keep"] = [x for x in o["derive"].split(",") if x and x != "Structural"]
+    if "copied_collect_as" in o:
+        r["copied_collect_as"] = o["copied_collect_as"]
+    if "extend_with" in o:
+        r["extend_with"] = o["extend_with"].split(",")
     if "await_yields" in o:
         r["await_yields"] = o["await_yields"]
     for k in ("index_recv", "drop_calls", "opaque_macros", "mut_params", "str_params", "into_vec", "iter_on", "iter_vec", "keyed_mut_iter", "deref_params", "subst", "collect_as_set"):
